@@ -511,7 +511,7 @@ func checkC16(c *ctx) {
 		h := cfiles[i].header
 		switch pr.Intn(10) {
 		case 8:
-			cfiles[i].header = "// Fixtures live in testdata/*.txt, see also docs/*/README.\n\n" + h
+			cfiles[i].header = "// Fixtures live in testdata/*.txt (one per case).\n\n" + h
 		case 9:
 			cfiles[i].header = "// Copyright (c) the authors. /* not a block comment */\n//\n// More text.\n\n" + h
 		case 0:
